@@ -57,6 +57,9 @@ class ViaSocksPeer(Peer):
 
     def connection_lost(self, clean):
         self.gone = True
+        sport = getattr(self, 'sport', None)
+        if sport is not None and (self.stream is None or self.stream.gone):
+            self.run.free_sports.append(sport)
 
     def finish(self, ok):
         if self.gone or self.state != 'waiting':
@@ -90,6 +93,7 @@ class C09Run(StateRun):
         self.second_tried = False
         self.pending_answers = []   # (consult, deferred) answers to fire later
         self.vias = []
+        self.free_sports = []
         self.first_setconf_acked_before = {}
         self.via_left = 1 + ch.draw(4, 'nvia') if self.mode == 'via' else 0
         self.scripted_ops = 3 if self.mode == 'scripted' else 0
@@ -114,8 +118,18 @@ class C09Run(StateRun):
             elif status in ('FAILED', 'CLOSED'):
                 peer.finish(False)
 
+    def w_stream_new(self, via=None, sport=None, target=None):
+        # an unrelated stream may come from a local port that an earlier (finished) SOCKS connection used
+        if sport is None and self.mode == 'via' and self.free_sports and self.ch.chance(1, 3, 'reuseport'):
+            p = self.free_sports.pop(0)
+            self.sim.probe('source-port-reused')
+            s = StateRun.w_stream_new(self, via=via, sport=p, target=target or ('reuse%d.example' % p, 80))
+            return s
+        return StateRun.w_stream_new(self, via=via, sport=sport, target=target)
+
     def socks_request(self, peer, host, port, sport):
-        s = self.w_stream_new(sport=sport, target=(host, port))
+        peer.sport = sport
+        s = StateRun.w_stream_new(self, sport=sport, target=(host, port))
         s.socks_peer = peer
         peer.stream = s
         for v in self.vias:
@@ -304,6 +318,7 @@ class C09Run(StateRun):
         if self.vias and not acked:
             sim.probe('via-concurrent-first-use')
         self.via_left -= 1
+        self.attacher_installed = True
         mc = ch.pick(sorted(pool, key=lambda c: c.id), 'viacirc')
         self.first_setconf_acked_before[len(self.vias)] = acked or not self.vias
         k = len(self.vias)
@@ -424,6 +439,12 @@ class C09Run(StateRun):
             seen = {}
             for sid, cid in self.attach_cmds:
                 seen[sid] = seen.get(sid, 0) + 1
+            for ms in self.model.all_streams:
+                if getattr(ms, 'first_seen_with_attacher', False) and not ms.first_gone and '.exit' not in (ms.target_host or ''):
+                    if seen.get(ms.id, 0) == 0:
+                        sim.fail('C09.stream-without-decision',
+                                 'stream %d (%s) appeared while the circuit attacher was installed but Tor never received an ATTACHSTREAM for it' % (
+                                     ms.id, ms.target_host))
             # stream ids may be reused, so compare with the number of streams that ever had that id
             per = {}
             for ms in self.model.all_streams:
